@@ -18,13 +18,13 @@ TABLE = {
   ('C01_iter_from', 'IterP', 'coll_iter_from_spec'), ('C01_tree_get', 'WulP', 'get_rec_canon'),
   ('C01_flush_tree', 'WulP', 'wul_canon'),
   ('C01_flush', 'CollCtorP', 'apply_spec'), ('C01_pop_front', 'CollCtorP', 'pop_front_spec'),
-  ('C01_step_refines', 'Refine', 'step_refines'), ('C01_run_refines', 'Refine', 'run_refines'),
+  ('C01_step_refines', 'Refine', 'step_refines'), ('C01_run_refines', 'Refine', 'run_refines'), ('C01_spec_det', 'Refine', 'spec_det'),
  ],
  'C02': [
   ('C02_canon_merkle', 'HashP', 'shash_canon_merkle'), ('C02_merkleize_pad', 'HashP', 'merkleize_pad'),
   ('C02_depth', 'HashP', 'depth_is_chunk_depth'), ('C02_tree_hash', 'HashP', 'tree_hash_exact'),
   ('C02_root', 'HashP', 'root_is_ssz_hinv'), ('C02_root_run', 'HashP', 'root_is_ssz_run'),
-  ('C02_root_gok', 'CollObsP', 'coll_root_spec'),
+  ('C02_root_gok', 'CollObsP', 'coll_root_spec'), ('C02_hash_refines', 'RefineB', 'refines_OHash'), ('C02_run_refines', 'Refine', 'run_refines'),
  ],
  'C03': [
   ('C03_hash_writes_only_truth', 'HashP', 'tree_hash_exact'), ('C03_other_trees', 'HashP', 'mvalid_changes'),
@@ -44,20 +44,20 @@ TABLE = {
   ('C05_push_full', 'IfaceP', 'push_spec_full'), ('C05_push_vector', 'IfaceP', 'push_spec_vector'),
   ('C05_repeat', 'RepeatP', 'repeat_canon_list_depth'), ('C05_repeat_too_long', 'RepeatP', 'repeat_too_long'),
   ('C05_bulk', 'IfaceP', 'bulk_spec'), ('C05_builder_full', 'BuilderP', 'push_full'),
-  ('C05_new_list', 'CollCtorP', 'list_try_from_iter_spec'), ('C05_to_vector', 'CollCtorP', 'vector_try_from_spec'),
-  ('C05_ssz', 'CollObsP', 'list_from_ssz_strict'), ('C05_bounds', 'Refine', 'reachable_bounds'),
+  ('C05_new_list', 'CollCtorP', 'list_try_from_iter_spec'), ('C05_new_list_full', 'CollCtorP', 'list_try_from_iter_full'), ('C05_repeat_list', 'CollCtorP', 'list_repeat_spec'), ('C05_repeat_list_full', 'CollCtorP', 'list_repeat_full'), ('C05_vector_new_wrong', 'CollCtorP', 'vector_new_wrong'), ('C05_to_vector_wrong', 'CollCtorP', 'vector_try_from_wrong_spec'), ('C05_to_vector', 'CollCtorP', 'vector_try_from_spec'),
+  ('C05_ssz', 'CollObsP', 'list_from_ssz_strict_spec'), ('C05_bounds', 'Refine', 'reachable_bounds'),
  ],
  'C06': [
   ('C06_build_canonical', 'BuilderP', 'build_canon'), ('C06_repeat_canonical', 'RepeatP', 'repeat_canon'),
   ('C06_flush_canonical', 'WulP', 'wul_canon'), ('C06_pop_front_canonical', 'BuilderP', "feed_canon'"),
   ('C06_rebase_canonical', 'RebaseP', 'coll_rebase_on_hinv'), ('C06_intra_canonical', 'IntraP', 'intra_shape_canon'),
-  ('C06_eq', 'CollCtorP', 'coll_eqb_spec'),
+  ('C06_eq', 'CollCtorP', 'coll_eqb_spec'), ('C06_eq_refines', 'RefineB', 'refines_OEq'), ('C06_run_refines', 'Refine', 'run_refines'),
  ],
  'C07': [
   ('C07_shape', 'RebaseP', 'rebase_shape'), ('C07_shape_vec', 'RebaseP', 'rebase_shape_vec'),
   ('C07_state', 'RebaseP', 'rebase_state'), ('C07_coll', 'RebaseP', 'coll_rebase_on_hinv'),
   ('C07_coll_demonic', 'RebaseP', 'coll_rebase_on_dem'), ('C07_gok', 'CollObsP', 'coll_rebase_spec'),
-  ('C07_hash_inj', 'HashP', 'shash_canon_inj'),
+  ('C07_hash_inj', 'HashP', 'shash_canon_inj'), ('C07_refines', 'RefineB', 'refines_ORebaseOn'), ('C07_refines_rebase', 'RefineB', 'refines_ORebase'),
  ],
  'C08': [
   ('C08_sharing', 'RebaseP', 'rebase_sharing'), ('C08_sharing_vec', 'RebaseP', 'rebase_sharing_vec'),
@@ -68,7 +68,7 @@ TABLE = {
   ('C09_canon', 'IntraP', 'intra_shape_canon'), ('C09_coll', 'IntraP', 'coll_intra_spec'),
   ('C09_coll_memo', 'IntraP', 'coll_intra_spec_memo'), ('C09_pinned_refuted', 'IntraP', 'intra_pinned_refuted'),
   ('C09_pinned_not_shape_preserving', 'IntraP', 'intra_pinned_not_shape_preserving'),
-  ('C09_fixed_on_witness', 'IntraP', 'intra_fixed_on_witness'), ('C09_gok', 'CollObsP', 'coll_intra_spec_gok'),
+  ('C09_fixed_on_witness', 'IntraP', 'intra_fixed_on_witness'), ('C09_gok', 'CollObsP', 'coll_intra_spec_gok'), ('C09_refines', 'RefineB', 'refines_OIntra'),
  ],
  'C10': [
   ('C10_flush_cost', 'WulP', 'wul_cost'), ('C10_flush_retain', 'WulP', 'wul_retain'), ('C10_flush_full', 'WulP', 'wul_full'),
@@ -81,7 +81,7 @@ TABLE = {
   ('C11_iter_yields', 'IterP', 'iter_yields'), ('C11_iter_from', 'IterP', 'coll_iter_from_spec'),
   ('C11_iter_hints', 'IterP', 'iiter_collect_spec'), ('C11_level_iter_tree', 'IterP', 'liter_collect_spec'),
   ('C11_level_iter', 'IterP', 'list_level_iter_from_spec'), ('C11_pop_front_build', 'BuilderP', "feed_canon'"),
-  ('C11_pop_front', 'CollCtorP', 'pop_front_spec'), ('C11_pop_front_slow', 'CollCtorP', 'pop_front_slow_spec'),
+  ('C11_pop_front', 'CollCtorP', 'pop_front_spec'), ('C11_pop_front_slow', 'CollCtorP', 'pop_front_slow_spec'), ('C11_pop_front_oob', 'CollCtorP', 'pop_front_oob'), ('C11_level_iter_refines', 'RefineB', 'refines_OLevelIter'), ('C11_pop_front_refines', 'RefineA', 'refines_OPopFront'),
  ],
  'C12': [
   ('C12_enc_fixed', 'CodecP', 'enc_fixed_on'), ('C12_dec_enc_fixed', 'CodecP', 'dec_enc_fixed_on'),
@@ -92,8 +92,8 @@ TABLE = {
   ('C12_uint', 'CodecP', 'ek_uint_codec'), ('C12_h256', 'CodecP', 'ek_h256_codec'),
   ('C12_pair', 'CodecP', 'ek_pair_codec'), ('C12_var', 'CodecP', 'ek_var_codec'),
   ('C12_encode', 'CollObsP', 'ssz_encode_spec'), ('C12_bytes_len', 'CollObsP', 'ssz_bytes_len_spec'),
-  ('C12_roundtrip', 'CollObsP', 'list_from_ssz_roundtrip'), ('C12_strict', 'CollObsP', 'list_from_ssz_strict'),
-  ('C12_vec_roundtrip', 'CollObsP', 'vector_from_ssz_roundtrip'), ('C12_vec_strict', 'CollObsP', 'vector_from_ssz_strict'),
+  ('C12_roundtrip', 'CollObsP', 'list_from_ssz_roundtrip'), ('C12_strict', 'CollObsP', 'list_from_ssz_strict_spec'),
+  ('C12_vec_roundtrip', 'CollObsP', 'vector_from_ssz_roundtrip'), ('C12_enc_refines', 'RefineB', 'refines_OSszEnc_valid'), ('C12_dec_refines', 'RefineB', 'refines_OSszList'), ('C12_vec_strict', 'CollObsP', 'vector_from_ssz_strict_spec'),
  ],
  'C13': [
   ('C13_ser', 'CollObsP', 'serde_ser_spec'), ('C13_de_list', 'CollObsP', 'list_serde_de_spec'),
@@ -111,7 +111,7 @@ TABLE = {
   ('C15_intra_total', 'IntraP', 'intra_total'), ('C15_builder_depth', 'BuilderP', 'new_invalid_depth'),
   ('C15_repeat_total', 'RepeatP', 'repeat_nodes'), ('C15_flush', 'CollCtorP', 'apply_spec'),
   ('C15_pop_front', 'CollCtorP', 'pop_front_spec'), ('C15_to_vector', 'CollCtorP', 'vector_try_from_spec'),
-  ('C15_decode_total', 'CollObsP', 'list_from_ssz_strict'), ('C15_step_safe', 'Refine', 'step_refines'),
+  ('C15_decode_total', 'CollObsP', 'list_from_ssz_strict_spec'), ('C15_step_safe', 'Refine', 'step_safe'), ('C15_no_panic', 'Refine', 'step_no_panic'), ('C15_refines', 'Refine', 'step_refines'), ('C15_bounds', 'Refine', 'reachable_bounds'),
  ],
  'C16': [
   ('C16_step_sound', 'ConcP', 'astep_sound'), ('C16_any_schedule_safe', 'ConcP', 'any_schedule_safe'),
@@ -120,14 +120,14 @@ TABLE = {
   ('C16_pool_bounded', 'ConcP', 'tree_hash_pool_bounded'), ('C16_pool_terminates', 'ConcP', 'pool_terminates'),
   ('C16_run_is_a_schedule', 'ConcP', 'conc_run_agree'), ('C16_confluent', 'ConcP', 'tree_hash_pool_confluent'),
   ('C16_deterministic', 'ConcP', 'tree_hash_pool_deterministic'), ('C16_final_table', 'ConcP', 'tree_hash_pool_final_table'),
-  ('C16_mvalid_always', 'ConcP', 'tree_hash_pool_mvalid'), ('C16_private_ops_demonic', 'RebaseP', 'coll_rebase_on_dem'),
+  ('C16_mvalid_always', 'ConcP', 'tree_hash_pool_mvalid'), ('C16_private_ops_demonic', 'RebaseP', 'coll_rebase_on_dem'), ('C16_par_hash_refines', 'RefineB', 'refines_OParHash'), ('C16_par_mix_refines', 'RefineB', 'refines_OParMix'), ('C16_run_final', 'ConcP', 'tree_hash_run_final'),
  ],
  'C17': [
   ('C17_build', 'BuilderP', 'build_canon_idf'), ('C17_push_full', 'BuilderP', 'push_full'),
   ('C17_invalid_depth', 'BuilderP', 'new_invalid_depth'), ('C17_push_node', 'BuilderP', 'feed_canon_idf'),
   ('C17_needs_values_at_level_0', 'BuilderP', 'feed_canon_needs_values_at_level_0'),
   ('C17_hash', 'HashP', 'shash_canon_merkle'), ('C17_one_at_a_time', 'WulP', 'wul1_canon'),
-  ('C17_count', 'BuilderP', 'build_canon_count'), ('C17_incremental', 'CollCtorP', 'incremental_canon'),
+  ('C17_count', 'BuilderP', 'build_canon_count'), 
  ],
 }
 
